@@ -191,7 +191,7 @@ struct Interp {
         }
         if (n == "append" || n == "prepend") {
             int o = other_slot(op.i(0));
-            if (((op.i(0) % 7) + 7) % 7 == 6) { o = cur; ctx.label(n + ":the-same-object-on-both-sides"); interesting = true; }   // x.append(x): a value operation like any other
+            if (((op.i(0) % 7) + 7) % 7 == 6 && mo.b.size() <= 32768) { o = cur; ctx.label(n + ":the-same-object-on-both-sides"); interesting = true; }   // (bounded: every self-append doubles the text)   // x.append(x): a value operation like any other
             Snap before = snap(cur);
             int r = n == "append" ? LA(c07_append(cur, o)) : LA(c07_prepend(cur, o));
             if (o < 0) { ctx.label(n + ":null-other"); VT_CHECK(ctx, r == 0, "mismatch", "null-other-accepted; " << n << "(NULL) returned TRUE"); require_unchanged(cur, before, n.c_str()); return; }
@@ -222,7 +222,7 @@ struct Interp {
             std::string repl;
             int o = -1;
             bool isnull = false;
-            if (n == "splice") { o = other_slot(op.i(4)); if (((op.i(4) % 7) + 7) % 7 == 6) { o = cur; ctx.label("splice:the-same-object-on-both-sides"); interesting = true; } if (o >= 0) repl = m[o].b; }
+            if (n == "splice") { o = other_slot(op.i(4)); if (((op.i(4) % 7) + 7) % 7 == 6 && mo.b.size() <= 32768) { o = cur; ctx.label("splice:the-same-object-on-both-sides"); interesting = true; } if (o >= 0) repl = m[o].b; }
             else { isnull = op.i(4) == 1; if (!isnull) repl = expand(op.s(0), op.i(5, 1)); }
             pos_label("splice", icls);
             Snap before = snap(cur);
